@@ -323,6 +323,54 @@ class Limits:
                     self.violation('history', f'after block: L={L} length {len(full)}: {out}',
                                    {'part': 'history', 'limit': L, 'length': len(full)})
 
+    async def retry_window_part(self, world, per_mgr):
+        """Requests that land in the window of a flush: one more block touching the near-limit scripts is
+        flushed history-only first (the history rows then name tx numbers beyond DB.state, so
+        DB.limited_history waits and reads again), get_history / subscribe are issued in that window
+        with an empty history cache, then the full flush commits the block.  Direct oracle only (real
+        sessions, real DB): every answer is 'history too large' or a COMPLETE history (of the chain
+        before or after the block) / the status of one - never a truncated list."""
+        from aiorpcx import Request, RPCError
+        tags = sorted({1000 + n for _c, _r, near, _hx, _L, _s in per_mgr for n in near})
+        before = {t: len(world.history[W.hashX_of(W.script_for(t))]) for t in tags}
+        await world.add_block(tags)
+        world.db.flush_dbs(world.bp.flush_data(), False, 0)          # history-only
+        after = {t: len(world.history[W.hashX_of(W.script_for(t))]) for t in tags}
+        jobs = []
+        for ctx, _runner, near, hx, L, status_of in per_mgr:
+            ctx.mgr_ref._history_cache.clear()
+            sess = ctx.sessions[0]
+
+            async def ask(sess, method, tag):
+                try:
+                    return await asyncio.wait_for(
+                        sess.handle_request(Request(method, [W.scripthash_hex(W.script_for(tag))])), 20)
+                except RPCError as e:
+                    return ('rpc', e.code)
+                except asyncio.TimeoutError:
+                    return ('timeout',)
+            for n in near:
+                jobs.append((L, 1000 + n, asyncio.ensure_future(ask(sess, 'blockchain.scripthash.get_history', 1000 + n))))
+        await asyncio.sleep(0.4)         # the requests are now waiting in the DB's retry loop
+        self.res.bump('retry_window_requests_still_waiting_when_the_flush_completed',
+                      sum(1 for _L, _t, f in jobs if not f.done()))
+        world.flush()                    # the full flush commits the block
+        for L, tag, fut in jobs:
+            r = await fut
+            self.res.bump('retry_window_requests')
+            self.res.evaluations += 1
+            case = {'part': 'retry_window', 'limit': L, 'length_before': before[tag], 'length_after': after[tag]}
+            if isinstance(r, list):
+                if len(r) not in (before[tag], after[tag]) or len(r) >= L:
+                    self.violation('history', f'get_history issued in the window of a flush returned {len(r)} entries for a '
+                                              f'script with {before[tag]} (before the block) / {after[tag]} (after) confirmed '
+                                              f'entries, limit {L}: a truncated history', case)
+            elif r == ('timeout',):
+                self.violation('history', 'get_history issued in the window of a flush never returned', case)
+            elif r[0] == 'rpc':
+                if after[tag] < L:
+                    self.violation('history', f'get_history in the flush window refused ({r}) a history of {after[tag]} < L={L}', case)
+
     async def history_all(self):
         res = self.res
         floor, div = R.history_constants()
@@ -347,6 +395,7 @@ class Limits:
             await self.block_notification_part(world, per_mgr)
             for ctx, runner, *_ in per_mgr:
                 res.bump('disagreeing_lines', runner.finish())
+            await self.retry_window_part(world, per_mgr)
         finally:
             world.close()
 
